@@ -179,4 +179,15 @@ theorem c16_gen_model_conditions (maxCap mask pIndex cIndex limit : BitVec 64) :
 example : Proofs.MpscGen.slowPathG 8#64 6#64 8#64 0#64 true true = 2#8 := by decide
 
 
+/-- growth is bounded: the chunk a resize links has twice the capacity of the current one and — chunk capacities and the
+    maximum being powers of two — never more than the maximum; getNextBufferSize refuses only a chunk already beyond it -/
+theorem c16_gen_growth_bounded (len maxCap : BitVec 64) (k m : Nat) (hk : k ≤ 60) (hm : m ≤ 60)
+    (hlen : len.toNat = 2 ^ k + 1) (hmax : (Gen.MpscSites.MPSC_getNextBufferSize_a0 maxCap).toNat = 2 ^ m)
+    (hok : Gen.MpscSites.MPSC_getNextBufferSize_c0 len (Gen.MpscSites.MPSC_getNextBufferSize_a0 maxCap) = false) :
+    (Gen.MpscSites.MPSC_getNextBufferSize_r0 (Gen.MpscSites.MPSC_getNextBufferSize_a2 len)).toNat = 2 * (len.toNat - 1) + 1 ∧
+    (Gen.MpscSites.MPSC_getNextBufferSize_r0 (Gen.MpscSites.MPSC_getNextBufferSize_a2 len)).toNat - 1
+      ≤ (Gen.MpscSites.MPSC_getNextBufferSize_a0 maxCap).toNat :=
+  Proofs.MpscGen.growth_bounded len maxCap k m hk hm hlen hmax hok
+
+
 end OtterVerif.Props.C16
